@@ -127,3 +127,19 @@ fn k_subject2_replay__shared_handle_one_leaves() {
   assert!(l2.is(&[EV_N | x as u32]), "subject.replay: the remaining observer lost an item after another observer (same Observable handle) left");
   kani::cover!(true, "harness reaches its end");
 }
+
+#[kani::proof]
+#[kani::unwind(3)]
+fn k_subject2_replay__history_then_stored_error() {
+  let a: u8 = kani::any();
+  let b: u8 = kani::any();
+  let id: u8 = kani::any();
+  let sbj = subjects::ReplaySubject::<u8>::new();
+  sbj.next(a);
+  sbj.next(b);
+  sbj.error(err(id));
+  let l = Log::new();
+  let _s = attach_o(&sbj.observable(), l);
+  assert!(l.is(&[EV_N | a as u32, EV_N | b as u32, EV_E | id as u32]), "subject.replay: a subscriber arriving after the error must get every past item in order, then the stored error");
+  kani::cover!(true, "harness reaches its end");
+}
